@@ -1041,6 +1041,17 @@ def _unsigned(ty):
     return ty in ("u8", "u16", "u32", "u64", "u128", "usize")
 
 
+def _mentions_var(e):
+    if isinstance(e, tuple):
+        if len(e) == 2 and e[0] in ("var", "rec"):
+            return True
+        return any(_mentions_var(c) for c in e)
+    return False
+
+
+_CALL_RX = re.compile(r"::\w+(<[^>()]*>)?\(|\bindirect\(")
+
+
 def b_mk_proj(base, elems):
     if base[0] == "proj":
         return ("proj", base[1], tuple(base[2]) + tuple(elems))
@@ -1063,6 +1074,14 @@ class FactsAnalysis:
         self.lit_expr = {}  # comparison literal -> (op, lhs expr, rhs expr) as printed (operands may be swapped for eq/ne)
         self.edge_lits = {}
         self._compute_edge_lits()
+        # multi-definition locals that occur in some comparison literal: their defining assignments are tracked as
+        # value bindings `v:=EXPR` so that `let id = match st { A(s) => s.x, B(s) => s.x }; if f != id {…}` is read,
+        # on the path through arm A, as a comparison with A's field
+        self.compared_vars = set()
+        for lits in self.edge_lits.values():
+            for l in lits:
+                for m in re.finditer(r"\bvar(\d+)\b", l):
+                    self.compared_vars.add(int(m.group(1)))
         self._solve()
 
     # literal construction ---------------------------------------------------------------------
@@ -1105,6 +1124,43 @@ class FactsAnalysis:
             if name == "Option::is_some":
                 l = "is(%s,Some)" % show(e[2][0])
                 l = l if truth else "is(%s,None)" % show(e[2][0])
+                self.lit_places[l] = places_of(e[2][0])
+                return [l]
+            if truth and name in ("Option::map_or", "Option::is_some_and") and e[2] and e[2][-1][0] == "agg" and str(e[2][-1][1]).startswith("closure:") \
+                    and (name == "Option::is_some_and" or (len(e[2]) == 3 and e[2][1][0] == "const" and str(e[2][1][1]) == "false")):
+                # opt.map_or(false, |v| pred(v)) is true  =>  opt is Some(v) and pred(v) holds
+                opt, clo = e[2][0], e[2][-1]
+                l1 = "is(%s,Some)" % show(opt)
+                self.lit_places[l1] = places_of(opt)
+                out = [l1]
+                try:
+                    cb = self.b.facts.body(clo[1][len("closure:"):])
+                    ce = cb.local_expr(0)
+                    payload = b_mk_proj(opt, ("@Some", "0"))
+
+                    def sub(x):
+                        if isinstance(x, tuple):
+                            if x == ("arg", 2):
+                                return payload
+                            if len(x) == 3 and x[0] == "proj" and x[1] == ("arg", 1) and x[2] and str(x[2][0]).isdigit() and int(x[2][0]) < len(clo[2]):
+                                cap = clo[2][int(x[2][0])]
+                                return b_mk_proj(cap, tuple(x[2][1:])) if len(x[2]) > 1 else cap
+                            return tuple(sub(c) for c in x)
+                        return x
+                    if cb.argc == 2 and not _mentions_var(ce):
+                        out += self.bool_lits(sub(ce), True)
+                except Exception:
+                    pass
+                return out
+            if name in ("HashMap::contains_key", "BTreeMap::contains_key") and len(e[2]) == 2:
+                # m.contains_key(k)  <=>  m.get(k).is_some()
+                g = "%s::get(%s,%s)" % (name.split("::")[0], show(e[2][0]), show(e[2][1]))
+                l = "is(%s,%s)" % (g, "Some" if truth else "None")
+                self.lit_places[l] = places_of(e[2][0]) | places_of(e[2][1])
+                return [l]
+            if name in ("Result::is_ok", "Result::is_err"):
+                yes, no = ("Ok", "Err") if name == "Result::is_ok" else ("Err", "Ok")
+                l = "is(%s,%s)" % (show(e[2][0]), yes if truth else no)
                 self.lit_places[l] = places_of(e[2][0])
                 return [l]
             if name == "Option::is_none":
@@ -1269,6 +1325,21 @@ class FactsAnalysis:
                             ks.extend(places_of(ae))
         return ks
 
+    def _tracked_bool(self, n):
+        """bool locals whose assignments are turned into facts: user variables (named in the debug info) and
+        temporaries that are assigned a non-constant at least once (the `&&`/`||` flags).  Compiler-generated drop
+        flags (unnamed, only ever assigned constants) are noise and are left out."""
+        cache = self.__dict__.setdefault("_tracked_cache", {})
+        if n not in cache:
+            b = self.b
+            named = any((not d["pl"].get("p")) and d["pl"].get("l") == n for d in (b.dbg or []) if isinstance(d.get("pl"), dict))
+            nonconst = False
+            for loc, kind, node in b.defs.get(n, []):
+                if kind != "assign" or node["rv"]["k"] != "use" or node["rv"]["op"]["k"] != "const":
+                    nonconst = True
+            cache[n] = named or nonconst
+        return cache[n]
+
     def _block_gens(self, bb, upto=None):
         """facts generated by the statements of block bb about multi-definition bool locals:
         `v = true/false` gives the literal v / !v; `v = <comparison>` gives the binding `v<=>LIT`, which the
@@ -1292,7 +1363,23 @@ class FactsAnalysis:
                             break
                 continue
             n = pl["l"]
+            if not b.is_single_def(n) and not (1 <= n <= b.argc) and b.locals[n]["ty"] != "bool" and n in getattr(self, "compared_vars", ()):
+                name = "var%d" % n
+                try:
+                    e = b.rvalue_expr(s["rv"])
+                except RecursionError:
+                    gens.pop(name, None)
+                    continue
+                if e[0] in ("proj", "arg", "const", "cast") and not _mentions_var(e):
+                    bl = "%s:=%s" % (name, show(e))
+                    self.lit_places[bl] = places_of(e) | {name}
+                    gens[name] = [bl]
+                else:
+                    gens.pop(name, None)
+                continue
             if b.is_single_def(n) or b.locals[n]["ty"] != "bool" or (1 <= n <= b.argc):
+                continue
+            if not self._tracked_bool(n):
                 continue
             name = "var%d" % n
             try:
@@ -1317,8 +1404,28 @@ class FactsAnalysis:
             out.extend(gens[v])
         return out
 
-    @staticmethod
-    def _refine(alt):
+    def _may_be_stale(self, place, bb):
+        """kill_fields=False keeps facts across writes to fields ("was checked before"): such a fact about `place`
+        may be stale in block bb if some write to the place can reach bb"""
+        if self.kill_fields:
+            return False
+        key = place
+        cache = self.__dict__.setdefault("_stale_cache", {})
+        if key not in cache:
+            b = self.b
+            writers = [x for x in b.reachable if any(places_overlap(k, place) for k in self._block_kills(x))]
+            seen = set()
+            st = list(writers)
+            while st:
+                x = st.pop()
+                for y, _ in b.succ[x]:
+                    if y not in seen:
+                        seen.add(y)
+                        st.append(y)
+            cache[key] = seen | set(writers)
+        return bb in cache[key]
+
+    def _refine(self, alt, bb=None):
         """apply bindings and drop contradictory alternatives: returns the refined alternative or None"""
         alt = set(alt)
         changed = True
@@ -1335,8 +1442,24 @@ class FactsAnalysis:
                         if ng not in alt:
                             alt.add(ng)
                             changed = True
+        variants = {}
         for l in alt:
-            if "<=>" in l:
+            if "<=>" in l or ":=" in l:
+                continue
+            if l.startswith("is(") and l.endswith(")"):
+                # a place has one variant at a time
+                try:
+                    pl_, vn = _split2(l[3:-1])
+                except ValueError:
+                    pl_, vn = None, None
+                # only for plain places: a "place" that is a call result (`is(it.next(),Some)`) can be a stale
+                # fact about an earlier evaluation of the same call (loops), which is not a contradiction
+                if pl_ is not None and "(" not in pl_ and not (bb is not None and self._may_be_stale(pl_, bb)):
+                    if variants.setdefault(pl_, vn) != vn:
+                        return None
+            # complementary literals contradict only if they cannot be facts about two different evaluations of
+            # the same call expression (loops, or a predicate of `self` re-evaluated after `self` changed)
+            if _CALL_RX.search(l):
                 continue
             if l.startswith("!") and l[1:] in alt:
                 return None
@@ -1398,7 +1521,7 @@ class FactsAnalysis:
                 new = set()
                 for alt in out:
                     if e_l:
-                        r = self._refine(alt | set(e_l))
+                        r = self._refine(alt | set(e_l), x)
                         if r is not None:
                             new.add(r)
                     else:
@@ -1440,7 +1563,7 @@ class FactsAnalysis:
             e_l = self.edge_lits.get((p, L["header"], lab[1]), []) if lab[0] == "sw" else []
             for alt in st:
                 if e_l:
-                    r = self._refine(alt | set(e_l))
+                    r = self._refine(alt | set(e_l), p)
                     if r is not None:
                         out.add(r)
                 else:
@@ -1475,9 +1598,30 @@ class FactsAnalysis:
 # implication closure ------------------------------------------------------------------------------
 
 
+def _canon_cmp(l):
+    """re-sort the operands of eq/ne after a substitution"""
+    if l.startswith("eq(") or l.startswith("ne("):
+        try:
+            a, b = _split2(l[3:-1])
+        except ValueError:
+            return l
+        if b < a:
+            a, b = b, a
+        return "%s(%s,%s)" % (l[:2], a, b)
+    return l
+
+
 def closure(alt, consts=None):
     out = set(alt)
-    for l in list(alt):
+    binds = [l.split(":=", 1) for l in alt if ":=" in l and "<=>" not in l]
+    if binds:
+        for l in list(out):
+            if ":=" in l or "<=>" in l:
+                continue
+            for v, ex in binds:
+                if re.search(r"\b%s\b" % v, l):
+                    out.add(_canon_cmp(re.sub(r"\b%s\b" % v, lambda m: ex, l)))
+    for l in list(out):
         if l.startswith("lt("):
             a, b = _split2(l[3:-1])
             out.add("le(%s,%s)" % (a, b))
